@@ -299,12 +299,18 @@ def iterRunOut (kind : IterKind) (it : SliceIt) : SM K V Q (List (RV K V)) := do
   let l ← it.restR s.r
   pure (l.zipIdx.map fun (p, j) => projItem kind (it.lo + j) p)
 
+/-- run every fork (clone) to its end, in the order they were taken. -/
+def iterRunForks (kind : IterKind) : List SliceIt → SM K V Q (List (RV K V))
+  | [] => pure []
+  | f :: fs => do
+    let x ← iterRunOut kind f
+    let rest ← iterRunForks kind fs
+    pure (RV.list x :: rest)
+
 /-- interpret an iterator script over a borrowing iterator of `self`. -/
 def iterScript (R : Render K V) (kind : IterKind) (g : V → V) :
     List IterCmd → SliceIt → List SliceIt → SM K V Q (List (RV K V))
-  | [], _, forks => do
-    let outs ← forks.mapM fun f => do pure (RV.list (← iterRunOut kind f))
-    pure outs
+  | [], _, forks => iterRunForks kind forks
   | c :: cs, it, forks => do
     match c with
     | .next =>
@@ -409,6 +415,14 @@ def fmtMap (R : Render K V) (kind : FmtKind) : SM K V Q String := do
   | .debugAlt => pure (StdFmt.debugMap true (l.map fun p => (R.dbgK p.1, R.dbgV p.2)))
   | .display => pure (displayMapCode R l)
 
+/-- read back the values behind the references `get_disjoint_mut` returned. -/
+def readSlots (r : Raw K V) : List (Option Nat) → SM K V Q (List (RV K V))
+  | [] => pure []
+  | none :: rest => do pure (RV.none :: (← readSlots r rest))
+  | some i :: rest => do
+    let p ← itemRefR r i
+    pure (RV.some (.ref i (.val p.2)) :: (← readSlots r rest))
+
 /-- one map operation on register state `s.r`; `other` gives read access to the
     other registers (for `eq`). -/
 def stepMapOp (R : Render K V) (other : Nat → Raw K V) : MapOp K V Q → SM K V Q (RV K V)
@@ -475,12 +489,7 @@ def stepMapOp (R : Render K V) (other : Nat → Raw K V) : MapOp K V Q → SM K 
     let slots ← if unchecked then get_disjoint_unchecked_mut E ks else get_disjoint_mut E ks
     writeSlots g slots
     let s ← getS
-    let outs ← slots.mapM fun o => match o with
-      | none => pure RV.none
-      | some i => do
-        let p ← itemRefR s.r i
-        pure (RV.some (.ref i (.val p.2)))
-    pure (.list outs)
+    pure (.list (← readSlots s.r slots))
   | .fmt kind => do pure (.str (← fmtMap R kind))
   | .drop => do dropAndRenew E; pure .unit
   | .forget => do forgetMap; pure .unit
